@@ -102,6 +102,10 @@ func (ctx *Context) Parse(value string) (err error) {
 		}
 	}()
 	_, err = p.parse(nil)
+	if err == nil {
+		// 指令数量超过上限时多出的指令会被丢弃，此时的字节码是残缺的，不能执行
+		err = p.cur.data.codeErr
+	}
 	if err != nil {
 		ctx.Error = err
 		return err
